@@ -142,7 +142,23 @@ func runFlow(f *flow, in []byte, replace bool) (captured []byte) {
 			vnet.Register(n, "kdc1.test.gokrb5:464", &vnet.Endpoint{Behaviour: vnet.Answer, Handler: h})
 		}
 	}
-	f.op(w)
+	vnet.MaxDials = 400 // no operation of any flow needs more than a few dozen connections
+	func() {
+		defer func() {
+			// clean up also when the operation is cut short (the panic, Runaway included, is the worker's to judge)
+			if p := recover(); p != nil {
+				func() {
+					defer func() { recover() }()
+					vnet.MaxDials = 0
+					w.Client.Destroy()
+				}()
+				vcrand.Fix(nil)
+				panic(p)
+			}
+		}()
+		f.op(w)
+	}()
+	vnet.MaxDials = 0
 	func() {
 		defer func() { recover() }()
 		w.Client.Destroy()
@@ -219,7 +235,16 @@ func registerFlows() {
 	pw.Cred = "password"
 	tcp := base
 	tcp.UDPLimit = 1
+	// KDCs that refer the client on for ever (home -> R1 -> R2 -> R3 -> R1 ...): the mutated reply is the first referral
+	cyc := base
+	cyc.Canonicalize, cyc.ChainRealms, cyc.ChainCycle = true, 3, true
+	ticketChain := func(w *cworld.World) {
+		if w.Client.Login() == nil {
+			w.Client.GetServiceTicket("HTTP/host.chain.gokrb5")
+		}
+	}
 	flows := []*flow{
+		{name: "client.GetServiceTicket(referral TGS-REP, KDCs referring in a cycle)", opts: cyc, replaceAt: 1, layer: "outer", op: ticketChain, kind: "der"},
 		{name: "client.Login(AS-REP)", opts: base, replaceAt: 0, layer: "outer", op: login, kind: "der"},
 		{name: "client.Login(KRB-ERROR preauth-required, keytab)", opts: pa, replaceAt: 0, layer: "outer", op: login, kind: "der"},
 		{name: "client.Login(KRB-ERROR preauth-required, password)", opts: pw, replaceAt: 0, layer: "outer", op: login, kind: "der"},
@@ -232,7 +257,17 @@ func registerFlows() {
 	}
 	for _, f := range flows {
 		f := f
-		seed := runFlow(f, nil, false)
+		var seed []byte
+		var seedPanic interface{}
+		func() {
+			defer func() { seedPanic = recover() }()
+			seed = runFlow(f, nil, false)
+		}()
+		if seedPanic != nil {
+			// the unmodified flow does not complete: the entry replays it, so that the worker reports it for what it is
+			register(&entry{name: f.name, kind: f.kind, costly: true, budget: 8 << 20, seeds: [][]byte{{0x30, 0x00}}, run: func(b []byte) { runFlow(f, nil, false) }})
+			continue
+		}
 		if len(seed) == 0 {
 			engine.Fatal("flow %s: nothing captured to mutate", f.name)
 		}
